@@ -554,6 +554,10 @@ def _forwards_unit(call, up):
     for k in call.keywords:
         if k.arg in ('unit', 'units') and isinstance(k.value, ast.Name) and k.value.id == up:
             return k.arg
+    # positional forwarding: helper(theta, units)
+    for a in call.args[1:]:
+        if isinstance(a, ast.Name) and a.id == up:
+            return up
     return None
 
 
@@ -569,8 +573,14 @@ def check_extraction_units(run, f, rule='R10x'):
         run.violation(rule, f.key, 'deg scaling', 'extraction function has no unit parameter', f=f)
         return
     ok = False
+    from ..cfg import pure_locals as _pl, _subst_pure as _sp
+    env_ = _pl(f.node)
+
+    def _is_deg_test(t):
+        # the test itself, or a local flag holding it (is_deg = unit == 'deg')
+        return matches("%s == 'deg'" % up, _sp(t, env_)) is not None
     for n in own_walk(f.node):
-        if isinstance(n, ast.If) and matches("%s == 'deg'" % up, n.test) is not None:
+        if isinstance(n, ast.If) and _is_deg_test(n.test):
             for st in n.body:
                 txt = ast.unparse(st)
                 if '180' in txt and 'pi' in txt and isinstance(st, (ast.AugAssign, ast.Assign)):
@@ -582,7 +592,7 @@ def check_extraction_units(run, f, rule='R10x'):
     # unscaled angles (typically the multi-valued arm) answers in radians whatever was asked for
     scale = set()
     for n in own_walk(f.node):
-        if isinstance(n, ast.If) and matches("%s == 'deg'" % up, n.test) is not None:
+        if isinstance(n, ast.If) and _is_deg_test(n.test):
             for st in n.body:
                 if isinstance(st, ast.Assign) and isinstance(st.targets[0], ast.Name) and '180' in ast.unparse(st.value) and 'pi' in ast.unparse(st.value):
                     other = [s2 for s2 in n.orelse if isinstance(s2, ast.Assign) and isinstance(s2.targets[0], ast.Name) and s2.targets[0].id == st.targets[0].id]
@@ -1242,3 +1252,57 @@ def check_scalartypes(run, rule='R10g'):
                       'rejected' % ', '.join('numpy.' + k if k in ('integer', 'floating') else k for k in missing), node=tbl)
     else:
         run.holds(rule, 'base/argcheck:_scalartypes', construct, 'int, float, numpy.integer, numpy.floating are accepted', node=tbl)
+
+
+def check_unit_only_converts(run, funcs, rule='R10v'):
+    """In a function that converts its angle argument with getunit(x, unit), the unit option has done its work there: radians and
+    degrees describe the same angle, so nothing else may depend on it.  A branch whose test reads `unit` (directly or through a
+    local computed from it) and whose arms compute or assign anything makes the result for unit='deg' differ from the result for
+    the converted radians in more than the conversion.  Allowed: passing unit on to a callee, raising for an unknown unit,
+    arms that only print or warn."""
+    n = 0
+    for f in funcs:
+        us = [p for p in f.allparams if p in ('unit', 'units')]
+        if not us:
+            continue
+        u = us[0]
+        fi = FuncInfo.of(f)
+        has_conv = False
+        for c in own_walk(f.node):
+            if isinstance(c, ast.Call) and getattr(c.func, 'attr', getattr(c.func, 'id', None)) == 'getunit' and \
+                    any(isinstance(y, ast.Name) and y.id == u for a in list(c.args) + [k.value for k in c.keywords] for y in ast.walk(a)):
+                has_conv = True
+        if not has_conv:
+            continue
+        tainted = {u}
+        for _ in range(3):
+            for st in own_walk(f.node):
+                if isinstance(st, ast.Assign) and len(st.targets) == 1 and isinstance(st.targets[0], ast.Name):
+                    if any(isinstance(y, ast.Call) for y in ast.walk(st.value)) and any(
+                            isinstance(y, ast.Call) and getattr(y.func, 'attr', getattr(y.func, 'id', None)) not in ('isscalar', 'issymbol', 'isinstance', 'len')
+                            for y in ast.walk(st.value)):
+                        continue        # a computed value (the conversion itself, a callee given unit=unit) is not a unit flag
+                    if any(isinstance(y, ast.Name) and y.id in tainted for y in ast.walk(st.value)) and \
+                            isinstance(st.value, (ast.Compare, ast.BoolOp, ast.Name, ast.UnaryOp)):
+                        tainted.add(st.targets[0].id)
+        for st in own_walk(f.node):
+            if not isinstance(st, (ast.If, ast.IfExp)):
+                continue
+            if not any(isinstance(y, ast.Name) and y.id in tainted for y in ast.walk(st.test)):
+                continue
+            n += 1
+            construct = 'branch on the unit: ' + src(st.test, 50)
+            if isinstance(st, ast.If):
+                arms = list(st.body) + list(st.orelse)
+                harmless = all(isinstance(b, ast.Raise) or (isinstance(b, ast.Expr) and isinstance(b.value, ast.Call) and
+                                                            getattr(b.value.func, 'id', getattr(b.value.func, 'attr', None)) in ('print', 'warn', 'warning'))
+                               or isinstance(b, ast.Pass) for b in arms)
+            else:
+                harmless = False
+            if harmless:
+                run.holds(rule, f.key, construct, 'the arms only report or reject: no value depends on the unit after the conversion', f=f, node=st, nontrivial=False)
+            else:
+                run.violation(rule, f.key, construct, 'the angle is converted by getunit, yet a later branch on %s computes something: the result for '
+                              "unit='deg' differs from the result for the same angle in radians in more than the conversion" %
+                              '/'.join(sorted(tainted & {y.id for y in ast.walk(st.test) if isinstance(y, ast.Name)})), f=f, node=st)
+    return n
